@@ -103,15 +103,15 @@ def check_batch_tasks(ctx):
     one = Rat(Poly.const(1))
     facts = []
     bad_shape = False
-    for c in _conjuncts(top_if.test):
+    # everything that holds when the loop runs: conjuncts of all enclosing tests (negations pushed inward), however the guard is nested or spelled
+    for c in A.facts_at(loop):
+        if not isinstance(c, ast.Compare):
+            continue
         lc = _lin_cmp(flow.resolve(c, at=top_if))
         if lc is None:
-            if isinstance(c, ast.Compare):
-                bad_shape = True
+            bad_shape = True
             continue
         facts.append(lc)
-    if isinstance(top_if.test, ast.BoolOp) and isinstance(top_if.test.op, ast.Or):
-        facts = []
     pos = any(_implies_nonneg(op, r, nb - one) for op, r in facts)
     le = any(_implies_nonneg(op, r, nt - nb) for op, r in facts)
     ctx.check(R, top_if, "P5a guard => n_batches >= 1", pos,
